@@ -44,6 +44,12 @@ pub struct CrossSpec {
     /// only entries of A inserted among the first 200 are referenced (their provisional
     /// positions fit one byte whatever their final position)
     pub early_targets: bool,
+    /// the REFERENCING store B is added to the directory pack before the referenced store A. Never
+    /// generated: on the unchanged tree that order stores references truncated to the width the
+    /// provisional positions needed, or stops on an assertion (DESIGN §14: outside the listed
+    /// property, which speaks of references among the entries of a store). Kept for replays only.
+    #[serde(default)]
+    pub b_first: bool,
 }
 
 #[derive(Serialize, Deserialize, Clone, Debug)]
@@ -97,21 +103,41 @@ fn run_cross(t: &CrossSpec, ctx: &Ctx, info: &mut CaseInfo) -> Result<(), Failur
     // referencing store first makes creation stop on an assertion for some inputs on the pinned
     // tree; the property speaks of references among the entries of a store, so that order is not
     // demanded here — DESIGN §14)
-    let sa = dp.add_entry_store(a);
-    let sb = dp.add_entry_store(b);
+    let (sa, sb) = if t.b_first {
+        info.class("cross:referencing-store-added-first");
+        let sb = dp.add_entry_store(b);
+        (dp.add_entry_store(a), sb)
+    } else {
+        let sa = dp.add_entry_store(a);
+        (sa, dp.add_entry_store(b))
+    };
     dp.create_index("a", Default::default(), 0.into(), sa, (n as u32).into(), jbk::EntryIdx::from(0).into());
     dp.create_index("b", Default::default(), 0.into(), sb, (targets.len() as u32).into(), jbk::EntryIdx::from(0).into());
     let path = ctx.path("cross.jbkd");
     let mut file = std::fs::OpenOptions::new().read(true).write(true).create(true).truncate(true).open(&path).unwrap();
-    match dp.finalize() {
-        Ok(f) => {
-            if let Err(e) = f.write(&mut file) {
-                fail!("dir-write-error", "{e}");
+    let written = std::panic::catch_unwind(std::panic::AssertUnwindSafe(|| -> Result<(), Failure> {
+        match dp.finalize() {
+            Ok(f) => {
+                if let Err(e) = f.write(&mut file) {
+                    fail!("dir-write-error", "{e}");
+                }
+                Ok(())
             }
+            Err(e) => fail!("dir-finalize-error", "{e}"),
         }
-        Err(e) => fail!("dir-finalize-error", "{e}"),
+    }));
+    match written {
+        Ok(r) => r?,
+        Err(p) => {
+            if t.b_first {
+                // refused loudly: nothing is stored altered
+                let _ = take_panic();
+                info.class("cross:referencing-store-first-refused");
+                return Ok(());
+            }
+            std::panic::resume_unwind(p);
+        }
     }
-    drop(file);
     let dpk = match open_directory_pack(&path) {
         Ok(d) => d,
         Err(e) => fail!("dir-unreadable", "{e}"),
@@ -361,7 +387,7 @@ impl Property for C15 {
             any::<bool>(),
             any::<bool>(),
         )
-            .prop_map(|(n_a, order, targets, b_sorted, early_targets)| C15Case::Cross(CrossSpec { n_a, order, targets, b_sorted, early_targets }));
+            .prop_map(|(n_a, order, targets, b_sorted, early_targets)| C15Case::Cross(CrossSpec { n_a, order, targets, b_sorted, early_targets, b_first: false }));
         prop_oneof![
             18 => Self::dir_strategy(tier).prop_map(C15Case::Dir),
             2 => tree,
@@ -380,9 +406,9 @@ impl Property for C15 {
             C15Case::Tree(TreeSpec { parents: vec![u16::MAX, 0, 0, 20000, 20000, 40000, 40000, 50000, 60000], order: 7, root_plain: None }),
             C15Case::Tree(TreeSpec { parents: vec![u16::MAX, 0, 0, 20000, 20000, 40000, 40000, 50000, 60000], order: 7, root_plain: Some(0) }),
             C15Case::Tree(TreeSpec { parents: vec![u16::MAX, u16::MAX, 0, 20000, 20000, 40000, 40000, 50000, 60000], order: 1, root_plain: Some(0) }),
-            C15Case::Cross(CrossSpec { n_a: 1000, order: 1, targets: vec![0, 100, 65535, 3, 40000], b_sorted: false, early_targets: true }),
-            C15Case::Cross(CrossSpec { n_a: 25000, order: 5, targets: vec![0, 100, 65535, 3, 40000], b_sorted: true, early_targets: false }),
-            C15Case::Cross(CrossSpec { n_a: 25000, order: 9, targets: vec![7, 30000], b_sorted: false, early_targets: true }),
+            C15Case::Cross(CrossSpec { n_a: 1000, order: 1, targets: vec![0, 100, 65535, 3, 40000], b_sorted: false, early_targets: true, b_first: false }),
+            C15Case::Cross(CrossSpec { n_a: 25000, order: 5, targets: vec![0, 100, 65535, 3, 40000], b_sorted: true, early_targets: false, b_first: false }),
+            C15Case::Cross(CrossSpec { n_a: 25000, order: 9, targets: vec![7, 30000], b_sorted: false, early_targets: true, b_first: false }),
         ]
     }
 
